@@ -236,10 +236,14 @@ def run(ctx):
     distinct = set()
     samples = []
     corr_ok = corr_n = 0
+    corpus = common.load_corpus("C11")
     while ran < n and not ctx.violations and len(ctx.broken) < 3:
         spec = richgen.gen_rich_spec(rng)
         fmt = rng.choice(FORMATS)
         case = {"spec": spec, "format": fmt, "config_bounds": rng.choice([None, None, None, [-500.0, 500.0], [-99999.0, 99999.0]])}
+        if corpus:
+            case = corpus.pop(0)
+            spec, fmt = case["spec"], case["format"]
         fails, why = check_case(case)
         ran += 1
         kinds[fmt] = kinds.get(fmt, 0) + 1
